@@ -73,3 +73,12 @@ Fixpoint chunks_fuel (fuel : nat) (n : nat) (l : bytes) : list bytes :=
            end
   end.
 Definition chunks (n : nat) (l : bytes) : list bytes := chunks_fuel (length l) n l.
+
+(* decidable equality of byte strings *)
+Fixpoint beq_bytes (a b : bytes) : bool :=
+  match a, b with
+  | [], [] => true
+  | x :: a', y :: b' => N.eqb x y && beq_bytes a' b'
+  | _, _ => false
+  end.
+
